@@ -129,7 +129,7 @@ def _flags():
 
 # (name rotation, custom functions?, indent, custom nodenamefunc?)
 VARIANTS = [(0, False, None, False), (2, False, None, False), (8, False, None, False), (4, True, 0, False), (7, True, 3, True), (5, True, 1, False),
-            (11, False, None, False), (12, True, 2, True), (10, True, 2, False)]
+            (11, False, None, False), (12, True, 2, True), (10, True, 2, False), (12, False, 2, False), (11, False, 3, False)]
 
 
 def _setup(cfg):
@@ -162,8 +162,8 @@ def dot_body(cfg):
     unique = cfg["exporter"] == "unique"
     cls = UniqueDotExporter if unique else DotExporter
     custom = variant[1]
-    indent = variant[2] if custom else 4
-    kw = {}
+    indent = variant[2] if variant[2] is not None else 4
+    kw = {} if variant[2] is None else {"indent": indent}
     if custom:
         kw = dict(graph="graph", name='my "g"', options=["rankdir=LR;", 'label="x";'], indent=indent,
                   nodeattrfunc=lambda nd: None if nd.i % 2 else 'shape=box, label="%s"' % nd.i,
@@ -324,7 +324,7 @@ def dot_body(cfg):
             warnings.simplefilter("ignore")
             from anytree.dotexport import RenderTreeGraph
 
-            legacy = list(RenderTreeGraph(nodes[s], filter_=filt, stop=stop, maxlevel=maxlevel))
+            legacy = list(RenderTreeGraph(nodes[s], filter_=filt, stop=stop, maxlevel=maxlevel, **kw))
         if legacy != lines:
             return {"why": "RenderTreeGraph differs from DotExporter", "got": legacy, "exp": lines}
     return True
@@ -342,8 +342,8 @@ def mermaid_body(cfg):
     sf = stopi if preds else (lambda i: False)
     ff = filti if preds else (lambda i: True)
     custom = variant[1]
-    indent = variant[2] if custom else 0
-    kw = {}
+    indent = variant[2] if variant[2] is not None else 0
+    kw = {} if variant[2] is None else {"indent": indent}
     if custom:
         kw = dict(graph="flowchart", name="LR", options=["%% opt", "classDef x fill:#f96;"], indent=indent,
                   nodefunc=lambda nd: '("%s")' % nd.i, edgefunc=lambda a, b: "--%d%d-->" % (a.i, b.i))
